@@ -159,6 +159,10 @@ def tailWorld (world : List Effect) (snapshot : Nat) (err : Option String) : Lis
 def closeDebug (debug top : Bool) (ret : Option Bytes) (gasUsed : Nat) (err : Option String) : List DebugEvent :=
   if debug then (if top then [.end_ ret gasUsed err] else [.exit ret gasUsed err]) else []
 
+/-- `a - b` on `uint64` (the debug callbacks report `startGas-gas`; nothing in the frame functions keeps a join point from
+    handing back more gas than the frame was given — C06's theorems carry that as a hypothesis on the Aspect runtime) -/
+def subU64 (a b : Nat) : Nat := (a % U64 + U64 - b % U64) % U64
+
 def openDebug (debug top : Bool) (kind : CallKind) (frm to : Addr) (input : Bytes) (gas : Nat) (value : Option Nat) : List DebugEvent :=
   if debug then (if top then [.start frm to kind.isCreate input gas (value.getD 0)] else [.enter kind frm to input gas value]) else []
 
@@ -169,7 +173,7 @@ def finish (st : FState) (kind : CallKind) (caller to : Addr) (gasSupplied : Nat
     (entry snap : List Effect) (ran : Bool) : FState :=
   { st with
     world := world
-    events := st.events ++ (if debugOwed then closeDebug true top ret (startGas - gas) err else [])
+    events := st.events ++ (if debugOwed then closeDebug true top ret (subU64 startGas gas) err else [])
     tracer := if treeNode then st.tracer.exitCall gas ret err else st.tracer
     results := st.results ++ [{ kind, caller, to, ret, gas, err, gasSupplied, worldAtEntry := entry, worldAtSnapshot := snap,
                                 worldAfter := world, ranCode := ran }] }
@@ -308,7 +312,7 @@ def haltFrame (st : FState) (fr : OpenFrame) (rest : List OpenFrame) (ret : Opti
     let world' := if revert then world.take fr.snapshot else world
     let gas' := if revert ∧ d.1 ≠ some errReverted then 0 else d.2.1
     -- the debug callback of `create` is not deferred: it is emitted here, before ExitCall runs
-    finish { st with stack := rest, events := st.events ++ closeDebug fr.facts.debug fr.top ret (fr.startGas - gas') d.1 }
+    finish { st with stack := rest, events := st.events ++ closeDebug fr.facts.debug fr.top ret (subU64 fr.startGas gas') d.1 }
       fr.kind fr.caller fr.to fr.gasSupplied true false fr.top fr.startGas ret gas' d.1 world'
       fr.worldAtEntry fr.worldAtSnapshot true
 
